@@ -138,6 +138,7 @@ def handle (j : Json) : Except String Json := do
         ("resultKey", jFields Gen.CacheKeys.resultKey), ("extractorsKey", jFields Gen.CacheKeys.extractorsKey),
         ("loadStoreRebound", .bool Gen.CacheKeys.loadStoreRebound), ("dbInsertKeyFlat", .bool Gen.CacheKeys.dbInsertKeyFlat),
         ("entityFlushClearsResults", .bool Gen.CacheKeys.entityFlushClearsResults),
-        ("extractorsRecheck", .bool Gen.CacheKeys.extractorsRecheck)])
+        ("extractorsRecheck", .bool Gen.CacheKeys.extractorsRecheck), ("codeobjectsPinned", .bool Gen.CacheKeys.codeobjectsPinned),
+        ("pinsRecordedAtRoot", .bool Gen.CacheKeys.pinsRecordedAtRoot)])
   | _ => throw s!"unknown op {op}"
 end PonyVerif.Drive.C05
